@@ -1,6 +1,7 @@
 (* C19 — a grid shares no mutable state with its inputs, copies or exports.
-   Statements only (about the heap model Model/C19.v); each closed by `exact` of a lemma from
-   Proofs/C19_proofs.v, followed by Print Assumptions.
+   Statements only (about the heap model Model/C19.v, which follows the code after the fix commits
+   75630b91 13d5671e 232e20ba e6f5fdf9 944273fc 3e9b47d4 fef78d05); each closed by `exact` of a lemma
+   from Proofs/C19_proofs.v, followed by Print Assumptions.
    Reading: c19_obs h d = everything the dataset rooted at d reports (names, data, attrs);
    c19_run h d ops = any sequence of public mutators applied through root d;
    c19_ext h h' = every cell that existed in h is still there, unchanged, in h'. *)
@@ -20,88 +21,55 @@ Theorem C19_interleaved : forall ops h d1 d2 o, c19_sep h d1 d2 ->
 Proof. exact c19_interleave_thm. Qed.
 Print Assumptions C19_interleaved.
 
-(* copy(), repaired (deep copy of _ds): equal at copy time, and any later history on either side
-   leaves the other side exactly as it was *)
+(* Grid.copy(): equal at copy time, and any later history on either side leaves the other side
+   exactly as it was *)
 Theorem C19_copy : forall h d h' d' ops,
-  c19_wt h d = true -> c19_copy_fixed h d = (h', d') ->
+  c19_wt h d = true -> c19_copy h d = (h', d') ->
   c19_obs h' d' = c19_obs h d /\
   c19_obs (c19_run h' d ops) d' = c19_obs h d /\
   c19_obs (c19_run h' d' ops) d = c19_obs h d.
-Proof. exact c19_copy_fixed_independent. Qed.
+Proof. exact c19_copy_independent. Qed.
 Print Assumptions C19_copy.
 
 Theorem C19_copy_interleaved : forall h d h' d' ops o,
-  c19_wt h d = true -> c19_copy_fixed h d = (h', d') ->
+  c19_wt h d = true -> c19_copy h d = (h', d') ->
   let hh := c19_run2 h' d d' ops in
   c19_obs (c19_apply hh d o) d' = c19_obs hh d' /\ c19_obs (c19_apply hh d' o) d = c19_obs hh d.
-Proof. exact c19_copy_fixed_interleaved. Qed.
+Proof. exact c19_copy_interleaved. Qed.
 Print Assumptions C19_copy_interleaved.
 
-(* copy() as written (Grid(self._ds)) violates the clause *)
-Theorem C19_copy_refuted : exists h d ops,
-  c19_wt h d = true /\
-  let '(h', d') := c19_copy_faithful h d in
-  c19_obs (c19_run h' d ops) d' <> c19_obs h' d'.
-Proof. exact c19_copy_faithful_refuted. Qed.
-Print Assumptions C19_copy_refuted.
-
-(* from_topology's connectivity argument: the caller's array is written iff the in-place branch
-   is taken (fill value given and (fill = INT_FILL_VALUE or dtype already intp)) and the
-   standardised values differ *)
+(* from_topology's connectivity arguments: nothing that exists is written, the result is a new
+   array holding the standardised values *)
 Theorem C19_inputs_connectivity : forall h conn x dtype_std fv si h' r,
   c19_get h conn = Some (C19Buf x) ->
   c19_process_connectivity h conn dtype_std fv si = (h', r) ->
-  (c19_get h' conn <> c19_get h conn <->
-   c19_pc_inplace dtype_std fv = true /\ c19_pc_result x fv si <> x).
-Proof. exact c19_pc_input_modified. Qed.
+  c19_ext h h' /\ r = length h /\ c19_buf_data h' r = c19_pc_result x fv si.
+Proof. exact c19_pc_spec. Qed.
 Print Assumptions C19_inputs_connectivity.
 
-(* ... all other cells are untouched; the result holds the standardised values; fresh unless in place *)
-Theorem C19_inputs_connectivity_frame : forall h conn x dtype_std fv si h' r,
+(* what the protective copy is for: without it the caller's array is written iff a fill value is
+   given, no astype copy happens and the standardised values differ *)
+Theorem C19_connectivity_without_copy : forall h conn x dtype_std fv si h' r,
   c19_get h conn = Some (C19Buf x) ->
-  c19_process_connectivity h conn dtype_std fv si = (h', r) ->
-  c19_buf_data h' r = c19_pc_result x fv si /\
-  (forall i, i <> conn -> (i < length h)%nat -> c19_get h' i = c19_get h i) /\
-  (c19_pc_inplace dtype_std fv = true ->
-     r = conn /\ c19_get h' conn = Some (C19Buf (c19_pc_result x fv si)) /\ length h' = length h) /\
-  (c19_pc_inplace dtype_std fv = false -> r = length h /\ c19_ext h h').
-Proof. exact c19_pc_spec. Qed.
-Print Assumptions C19_inputs_connectivity_frame.
+  c19_process_connectivity_nocopy h conn dtype_std fv si = (h', r) ->
+  (c19_get h' conn <> c19_get h conn <->
+   c19_pc_inplace dtype_std fv = true /\ c19_pc_result x fv si <> x).
+Proof. exact c19_pc_nocopy_input_modified. Qed.
+Print Assumptions C19_connectivity_without_copy.
 
 (* the standardised values equal the given ones exactly when no entry is the caller's fill value
    and no real entry is shifted *)
-Theorem C19_inputs_connectivity_values : forall x o si, o <> FILL ->
+Theorem C19_connectivity_values : forall x o si, o <> FILL ->
   (c19_std_conn x o si = x <-> Forall (fun v => v <> o /\ (v = FILL \/ si = 0)) x).
 Proof. exact c19_std_conn_fix. Qed.
-Print Assumptions C19_inputs_connectivity_values.
+Print Assumptions C19_connectivity_values.
 
-Theorem C19_inputs_connectivity_fixed : forall h conn x dtype_std fv si h' r,
-  c19_get h conn = Some (C19Buf x) ->
-  c19_process_connectivity_fixed h conn dtype_std fv si = (h', r) ->
-  c19_ext h h' /\ r = length h /\ c19_buf_data h' r = c19_pc_result x fv si.
-Proof. exact c19_pc_fixed_spec. Qed.
-Print Assumptions C19_inputs_connectivity_fixed.
-
-Theorem C19_inputs_connectivity_refuted : exists h conn dtype_std fv si,
-  let '(h', r) := c19_process_connectivity h conn dtype_std fv si in
-  c19_get h' conn <> c19_get h conn.
-Proof. exact c19_pc_refuted. Qed.
-Print Assumptions C19_inputs_connectivity_refuted.
-
-(* from_topology with the repaired helper: no argument cell is written, whatever the arguments *)
-Theorem C19_inputs_from_topology_fixed : forall h coords conns dtype_std fv si h' g,
-  c19_from_topology_fixed h coords true conns dtype_std fv si = Some (h', g) ->
+(* from_topology / open_grid(dict): no argument cell is written, whatever the arguments *)
+Theorem C19_inputs_from_topology : forall h coords conns dtype_std fv si h' g,
+  c19_from_topology h coords conns dtype_std fv si = (h', g) ->
   c19_ext h h' /\ (length h <= g)%nat.
-Proof. exact c19_from_topology_fixed_inputs. Qed.
-Print Assumptions C19_inputs_from_topology_fixed.
-
-Theorem C19_inputs_from_topology_refuted : exists h coords conns dtype_std fv si,
-  match c19_from_topology h coords true conns dtype_std fv si with
-  | Some (h', g) => c19_get h' 2%nat <> c19_get h 2%nat
-  | None => False
-  end.
-Proof. exact c19_from_topology_refuted. Qed.
-Print Assumptions C19_inputs_from_topology_refuted.
+Proof. exact c19_from_topology_inputs. Qed.
+Print Assumptions C19_inputs_from_topology.
 
 (* table-driven readers (MPAS, Exodus, SCRIP, ESMF, GEOS-CS, ICON): for every table and input *)
 Theorem C19_inputs_readers : forall h d t cg over h' g,
@@ -109,63 +77,39 @@ Theorem C19_inputs_readers : forall h d t cg over h' g,
 Proof. exact c19_read_table_inputs. Qed.
 Print Assumptions C19_inputs_readers.
 
-(* UGRID reader with the repaired standardisation *)
-Theorem C19_inputs_ugrid_fixed : forall h d names dtype_std h' g,
-  c19_read_ugrid_fixed h d names dtype_std = (h', g) -> c19_ext h h' /\ (length h <= g)%nat.
-Proof. exact c19_read_ugrid_fixed_inputs. Qed.
-Print Assumptions C19_inputs_ugrid_fixed.
+(* UGRID reader *)
+Theorem C19_inputs_ugrid : forall h d names dtype_std h' g,
+  c19_read_ugrid h d names dtype_std = (h', g) -> c19_ext h h' /\ (length h <= g)%nat.
+Proof. exact c19_read_ugrid_inputs. Qed.
+Print Assumptions C19_inputs_ugrid.
 
-Theorem C19_inputs_ugrid_refuted : exists h d names dtype_std,
-  c19_wt h d = true /\
-  let '(h', g) := c19_read_ugrid h d names dtype_std in c19_obs h' d <> c19_obs h d.
-Proof. exact c19_read_ugrid_refuted. Qed.
-Print Assumptions C19_inputs_ugrid_refuted.
+(* Grid(ds) / from_dataset(ds, source_grid_spec=...): building writes nothing of the caller's
+   dataset, and neither does any later sequence of public mutators of the grid (everything except
+   an in-place numpy write into a shared array) *)
+Theorem C19_inputs_adopt : forall h d h' g ops,
+  c19_grid_init h d = (h', g) -> forallb c19_not_writebuf ops = true ->
+  c19_ext h h' /\ (length h <= g)%nat /\ c19_ext h (c19_run h' g ops).
+Proof. exact c19_grid_init_inputs. Qed.
+Print Assumptions C19_inputs_adopt.
 
-(* Grid(ds) / from_dataset(ds, source_grid_spec=...) *)
-Theorem C19_inputs_adopt_fixed : forall h d h' g,
-  c19_wt h d = true -> c19_grid_init_fixed h d = (h', g) -> c19_ext h h' /\ (length h <= g)%nat.
-Proof. exact c19_grid_init_fixed_inputs. Qed.
-Print Assumptions C19_inputs_adopt_fixed.
-
-Theorem C19_inputs_adopt_refuted : exists h d,
-  c19_wt h d = true /\
-  let '(h', g) := c19_grid_init h d in g = d /\ c19_obs h' d <> c19_obs h d.
-Proof. exact c19_grid_init_adopt_refuted. Qed.
-Print Assumptions C19_inputs_adopt_refuted.
-
-(* exports *)
+(* to_xarray("ugrid") / encode_as("UGRID"): grid and returned dataset are independent both ways *)
 Theorem C19_export : forall h d h' e ops,
-  c19_wt h d = true -> c19_to_xarray_ugrid_fixed h d = (h', e) ->
+  c19_wt h d = true -> c19_to_xarray_ugrid h d = (h', e) ->
   c19_obs h' d = c19_obs h d /\
   c19_obs (c19_run h' e ops) d = c19_obs h d /\
   c19_obs (c19_run h' d ops) e = c19_obs h' e.
-Proof. exact c19_export_fixed_independent. Qed.
+Proof. exact c19_export_independent. Qed.
 Print Assumptions C19_export.
 
-Theorem C19_export_refuted : exists h d ops,
-  c19_wt h d = true /\
-  let '(h', e) := c19_to_xarray_ugrid h d in
-  c19_obs (c19_run h' e ops) d <> c19_obs h' d.
-Proof. exact c19_export_ugrid_refuted. Qed.
-Print Assumptions C19_export_refuted.
-
-Theorem C19_export_second_refuted : exists h d ops,
-  c19_wt h d = true /\
-  let '(h1, e1) := c19_to_xarray_ugrid h d in
-  let '(h2, e2) := c19_to_xarray_ugrid h1 d in
-  e2 <> d /\ c19_obs (c19_run h2 e2 ops) d <> c19_obs h2 d.
-Proof. exact c19_export_ugrid_second_refuted. Qed.
-Print Assumptions C19_export_second_refuted.
-
-(* geometry exports: a deep copy (to_polycollection) is never the cached object *)
+(* geometry exports: a deep copy (to_polycollection, to_linecollection) is never the cached object *)
 Theorem C19_export_geo_deep : forall h cached c h' e c',
   c19_get h cached = Some c -> c19_export_geo true h cached = (h', e) ->
   e <> cached /\ c19_get h' e = Some c /\ c19_get (c19_upd h' e c') cached = Some c.
 Proof. exact c19_export_geo_deep. Qed.
 Print Assumptions C19_export_geo_deep.
 
-(* ... while handing out the cached object (to_geodataframe, to_linecollection) lets every
-   caller edit reach the cache *)
+(* ... while handing out the cached object (Grid.to_geodataframe, pinned by the suite's
+   `gdf_a is gdf_b`) lets every caller edit reach the cache *)
 Theorem C19_export_geo_shared_refuted : forall h cached c c',
   c19_get h cached = Some c ->
   let '(h', e) := c19_export_geo false h cached in
